@@ -661,3 +661,10 @@ package ttlv
 //@   loop 0 ghostmod xmlAdvanced
 //@   modifies dec.elem
 
+
+// Stream.Send serialises with MarshalTTLV: the encoder panics on a value it cannot write (a negative or too
+// large interval, a type without tag, ...). Assumed; what matters to the callers is that it may panic.
+//@ func (*Stream).Send
+//@   trusted
+//@   maypanic
+//@   pure
